@@ -16,7 +16,8 @@ RULE = ('histories of up to 70 operations on a full in-process client (real cond
         'controllable clock; the harness plays the driver): scripted boundary histories for every clause (duplicate / late / conflicting / '
         'foreign-kind / unknown-id answers, time-out boundary t0+T and t0+T+1, error-once, release, close) followed by random histories mixing '
         '1-4 publications, exclusive publications, subscriptions, counters and destinations with answers in any order, lookups, handle drops, '
-        'clock jumps and close; a case is non-trivial when it contains at least one answer event and one lookup; distinct = distinct histories')
+        'clock jumps and close; in about a tenth of the random histories (and three scripted ones) handles are dropped while another thread holds the conductor mutex '
+        '(harness ops Dp/Dx/Ds/Dc: helper thread locks, signals, holds 150 ms - same expected observation as the plain drop); a case is non-trivial when it contains at least one answer event and one lookup; distinct = distinct histories')
 ASSUMPTIONS = [
     'the capacity arithmetic of the command ring is C06\'s: here the ring either has room (the harness drains it after every operation) or, between SetRingFull true / false, refuses every command; strings fit the 512-byte scratch buffer (C13)',
     'driver events are well formed: ASCII strings, counter ids inside the counters buffer, an existing log file with legal geometry, '
@@ -34,6 +35,13 @@ def generate(rng, tier):
     n = 500 if tier != 'thorough' else 20000
     for _ in range(n):
         cases.append(cc.gen_history(rng, tier, 'protocol' if rng.random() < 0.75 else 'faults'))
+    # in about a tenth of the random histories the handle drops happen while another thread is inside the conductor (own random stream:
+    # the histories themselves stay what they were)
+    rng2 = random.Random(rng.getrandbits(32) ^ 0xC09D)
+    first = len(cases) - n
+    for i in range(first, len(cases)):
+        if rng2.random() < 0.1:
+            cases[i] = cc.with_locked_drops(cases[i], rng2)
     return cases
 
 
